@@ -57,6 +57,13 @@ def run(P, rep, tier):
     rep.floor("C06.R3", 10)
     rep.floor("C06.R4", 5)
     rep.floor("C06.R5", 12)
+    # refinement against the pinned tree for every function the rules above looked at (rules/pinned.py)
+    import os as _os
+
+    if not _os.environ.get("MDSA_PINNED_GEN"):
+        from .pinned import refine
+
+        refine(P, rep, ctx, "C06")
 
 
 def _r6(P, rep, ctx):
